@@ -12,6 +12,7 @@ type BoundedResult struct {
 	OK    bool
 	Known bool
 	Lines []string
+	KnownLines []string
 	Info  map[string]interface{}
 }
 
@@ -38,11 +39,38 @@ func runBounded(v *Verifier, root, repo, prop string, b BoundedSpec, tier string
 		"harness": "replaygen/" + b.File, "package": b.Pkg, "test": b.Test}
 	var checks []map[string]interface{}
 	var viol []string
+	var known []string
 	cases := 0
 	for _, l := range strings.Split(out, "\n") {
 		l = strings.TrimSpace(l)
 		if strings.HasPrefix(l, "BOUNDED-VIOLATION ") {
 			viol = append(viol, strings.TrimPrefix(l, "BOUNDED-VIOLATION "))
+		} else if strings.HasPrefix(l, "BOUNDED-KNOWN ") {
+			// a recorded genuine defect reproduced: reported as KNOWN-FINDING when listed in known_findings.json, as a violation otherwise
+			rest := strings.TrimPrefix(l, "BOUNDED-KNOWN ")
+			tag := ""
+			if f := strings.Fields(rest); len(f) > 0 && strings.HasPrefix(f[0], "tag=") {
+				tag = strings.TrimPrefix(f[0], "tag=")
+			}
+			listed := false
+			for _, k := range loadKnown(root) {
+				if k.Property == prop && k.Status == "known" && k.Bounded == tag && tag != "" {
+					listed = true
+					line := fmt.Sprintf("KNOWN-FINDING: property=%s %s", prop, k.What)
+					dup := false
+					for _, x := range known {
+						if x == line {
+							dup = true
+						}
+					}
+					if !dup {
+						known = append(known, line)
+					}
+				}
+			}
+			if !listed {
+				viol = append(viol, "unlisted finding: "+rest)
+			}
 		} else if strings.HasPrefix(l, "BOUNDED ") {
 			f := map[string]interface{}{}
 			rest := strings.TrimPrefix(l, "BOUNDED ")
@@ -66,7 +94,8 @@ func runBounded(v *Verifier, root, repo, prop string, b BoundedSpec, tier string
 	info["checks"] = checks
 	info["cases"] = cases
 	info["wall_s"] = time.Since(t0).Seconds()
-	res := BoundedResult{OK: true, Info: info}
+	res := BoundedResult{OK: true, Info: info, KnownLines: known}
+	info["known_findings_reproduced"] = known
 	ran := strings.Contains(out, "\nok ") || strings.HasPrefix(out, "ok ") || strings.Contains(out, "--- PASS") || strings.Contains(out, "PASS")
 	if len(viol) > 0 || !ran || cases == 0 {
 		res.OK = false
